@@ -59,6 +59,10 @@ def sweep_cases(rng, tmpdir):
             ('vd 0 load ' + h(os.path.join(tmpdir, 'missing.npd')), 'ENOENT'), ('vd 0 save ' + h('/nonexistent-dir/x.npd'), 'ENOENT')]
     G.append(('vnadata', vd_setup, [(l, (e,), False) for l, e in bad], 'vd 0 digest',
               ['vd 0 set_cell 1 1 1 %s' % z(0.5), 'vd 0 get_cell 1 1 1', 'vd 0 convert 1 4', 'vd 0 cksave ' + h('x.npd'), 'vd 0 init 4 1 1 1', 'vd 0 free', 'vd 1 free']))
+    # the same refusals on an object in per-frequency impedance mode (a refused setter must not collapse the mode)
+    fz_setup = vd_setup + ['vd 0 set_fz0_vector 0 %s %s' % (z(75 + 1j), z(75 + 2j)), 'vd 0 set_fz0_vector 1 %s %s' % (z(80 + 1j), z(80 + 2j))]
+    G.append(('vnadata-fz0', fz_setup, [(l, (e,), False) for l, e in bad if ' get_fz0' not in l or ' -1' in l or ' 2 ' in l or ' 3' in l or '1000000' in l], 'vd 0 digest',
+              ['vd 0 get_fz0 1 1', 'vd 0 set_z0 0 %s' % z(50), 'vd 0 free', 'vd 1 free']))
     # vnadata_init starts by emptying the object: a refused init leaves it empty but usable (C11: "can still be queried, re-initialised, saved and freed")
     G.append(('vnadata-init', vd_setup, [(l, (e,), False) for l, e in init_bad], None,
               ['vd 0 digest', 'vd 0 init 1 1 1 1', 'vd 0 set_cell 0 0 0 %s' % z(0.5), 'vd 0 savestr ' + h('x.npd'), 'vd 0 free', 'vd 1 free']))
@@ -204,11 +208,32 @@ def run(chk):
 def histories(chk, exe, rng, count):
     """the contract on every line of random histories (the semantic oracles of C15 / C16 judge the values)"""
     for k in range(count):
-        lines, _ = c15.gen_history(rng, 60)
+        lines0, _ = c15.gen_history(rng, 60)
+        # a digest of the addressed object before every call: a refused call must leave it as it was
+        lines = []
+        for l in lines0:
+            w = l.split()
+            if w[2] not in ('alloc', 'free', 'digest'):
+                lines.append('vd %s digest' % w[1])
+            lines.append(l)
         out, rc, err = vlib.run_lines(exe, lines, timeout=300)
         if rc != 0 or len(out) != len(lines):
             chk.violation('crash-history', 'crash / sanitizer report in a vnadata history:\n%s' % err[-1200:], lines[:len(out) + 1])
             return
+        last_digest = {}
+        for i, (l, o) in enumerate(zip(lines, out)):
+            w = l.split()
+            if w[2] == 'digest' and i + 1 < len(lines) and lines[i + 1].split()[1] == w[1]:
+                # state before the next call on this slot; compare after a failure
+                j = i + 1
+                if out[j].startswith('fail') and lines[j].split()[2] not in ('init', 'convert', 'loadstr', 'load'):
+                    # next digest of the same slot
+                    k2 = next((k for k in range(j + 1, len(lines)) if lines[k].split()[1] == w[1] and lines[k].split()[2] == 'digest'), None)
+                    between = [lines[k] for k in range(j + 1, k2 or j + 1) if lines[k].split()[1] == w[1]]
+                    if k2 is not None and not between and out[k2] != o:
+                        chk.violation('changed-history', '`%s` was refused (%s) but changed the object: %s -> %s' % (lines[j][:100], out[j][:30], o[:160], out[k2][:160]), lines[:k2 + 1])
+                        return
+                    chk.count('refused_unchanged_in_history')
         for l, o in zip(lines, out):
             ok, e, cbe, cbw = parse_res(o)
             chk.evaluations += 1
